@@ -336,13 +336,19 @@ def replay_case(case):
         return res
     events = [tab_event(rows, ['pk', 'mod'], lams)]
     where = [None]
+
+    def guard(fn, what, l, c):
+        rr = jutil.safe(fn)
+        if rr[0] == 'exc':
+            res.setdefault('crash', []).append((what, l, c, rr[2]))
+            return None
+        return rr[1]
     for p in case['pos']:
         if p['c'] > len(lines[p['l'] - 1]):
             res['machinery'].append('position beyond line end: %s' % p)
             continue
         r = jutil.safe(lambda: s.get_context(p['l'], p['c']))
         if r[0] == 'exc':
-            res['events'].append(None)
             res.setdefault('crash', []).append(('get_context', p['l'], p['c'], r[2]))
             continue
         got = row_of_name(r[1], by_npos)
@@ -357,7 +363,10 @@ def replay_case(case):
             # the answer's own parent chain and full_name (value route)
             if got not in (0, UNKNOWN) and p['cls'] == 'name':
                 d = r[1]
-                ch = chain_of(d, by_npos)
+                ch = guard(lambda: (chain_of(d, by_npos), d.full_name), 'context.parent/full_name', p['l'], p['c'])
+                if ch is None:
+                    continue
+                ch = ch[0]
                 events.append({'k': 'dchain', 'row': got, 'got': ch})
                 where.append('get_context(%d, %d).parent() chain' % (p['l'], p['c']))
                 events.append(full_event(d, got))
@@ -381,7 +390,10 @@ def replay_case(case):
             row = by_npos[pos]
             seen_defs.add(row)
             dd = [x for x in case['defs'] if x['row'] == row][0]
-            ch = chain_of(d, by_npos)
+            ch = guard(lambda: (chain_of(d, by_npos), d.full_name), 'parent/full_name', pos[0], pos[1])
+            if ch is None:
+                continue
+            ch = ch[0]
             if ch != dd['dchain']:
                 res['drift'].append({'what': 'parent chain', 'row': row, 'design': dd['dchain'], 'code': ch})
             events.append({'k': 'dchain', 'row': row, 'got': ch})
@@ -394,7 +406,9 @@ def replay_case(case):
         elif pos in dnames:
             n = dnames[pos]
             seen_names.add(pos)
-            ch = chain_of(d, by_npos)
+            ch = guard(lambda: chain_of(d, by_npos), 'parent', pos[0], pos[1])
+            if ch is None:
+                continue
             if ch != n['dchain']:
                 res['drift'].append({'what': 'name parent chain', 'pos': pos, 'cls': n['cls'],
                                      'design': n['dchain'], 'code': ch})
@@ -637,7 +651,9 @@ def run(ctx):
         st = r2.trace[-1]['vars']
         src = render(st['prog'], st['unit'])
         ctx.coverage['counterexample_' + inv] = src
-        rec = record_counterexample(src)
+        # observed in forked workers: the parent must not own a jedi helper subprocess before pmap forks
+        rec = jutil.pmap(record_counterexample, [src] * 4, procs=4)[0]
+        jutil.check_worker_errors([rec])
         if rec['skipped'] or rec['crash']:
             raise MachineryError('cannot observe counterexample of %s: %s' % (inv, rec))
         if inv == 'CtxStrict':
